@@ -13,6 +13,19 @@ macro_rules! task_local {
     };
 }
 
+/// `tokio::pin!` (same expansion as tokio 1.x)
+#[macro_export]
+macro_rules! pin {
+    ($($x:ident),*) => { $(
+        let mut $x = $x;
+        #[allow(unused_mut)]
+        let mut $x = unsafe { $crate::macros::support::Pin::new_unchecked(&mut $x) };
+    )* };
+    ($(let $x:ident = $init:expr;)*) => {
+        $( let $x = $init; $crate::pin!($x); )*
+    };
+}
+
 #[doc(hidden)]
 pub mod support {
     pub use std::future::poll_fn;
